@@ -30,3 +30,155 @@ func StoreInt32(p *int32, v int32)         { vsched.Atomic(uintptr(unsafe.Pointe
 func AddUint32(p *uint32, d uint32) uint32 { vsched.Atomic(uintptr(unsafe.Pointer(p))); *p += d; return *p }
 func LoadUint32(p *uint32) uint32          { vsched.Atomic(uintptr(unsafe.Pointer(p))); return *p }
 func StoreUint32(p *uint32, v uint32)      { vsched.Atomic(uintptr(unsafe.Pointer(p))); *p = v }
+
+// typed atomics (sync/atomic since Go 1.19)
+
+type Int32 struct{ v int32 }
+
+func (x *Int32) Load() int32           { return LoadInt32(&x.v) }
+func (x *Int32) Store(v int32)         { StoreInt32(&x.v, v) }
+func (x *Int32) Add(d int32) int32     { return AddInt32(&x.v, d) }
+func (x *Int32) Swap(n int32) int32    { vsched.Atomic(uintptr(unsafe.Pointer(&x.v))); o := x.v; x.v = n; return o }
+func (x *Int32) CompareAndSwap(o, n int32) bool {
+	vsched.Atomic(uintptr(unsafe.Pointer(&x.v)))
+	if x.v == o {
+		x.v = n
+		return true
+	}
+	return false
+}
+
+type Int64 struct{ v int64 }
+
+func (x *Int64) Load() int64                    { return LoadInt64(&x.v) }
+func (x *Int64) Store(v int64)                  { StoreInt64(&x.v, v) }
+func (x *Int64) Add(d int64) int64              { return AddInt64(&x.v, d) }
+func (x *Int64) Swap(n int64) int64             { vsched.Atomic(uintptr(unsafe.Pointer(&x.v))); o := x.v; x.v = n; return o }
+func (x *Int64) CompareAndSwap(o, n int64) bool { return CompareAndSwapInt64(&x.v, o, n) }
+
+type Uint32 struct{ v uint32 }
+
+func (x *Uint32) Load() uint32        { return LoadUint32(&x.v) }
+func (x *Uint32) Store(v uint32)      { StoreUint32(&x.v, v) }
+func (x *Uint32) Add(d uint32) uint32 { return AddUint32(&x.v, d) }
+func (x *Uint32) Swap(n uint32) uint32 {
+	vsched.Atomic(uintptr(unsafe.Pointer(&x.v)))
+	o := x.v
+	x.v = n
+	return o
+}
+func (x *Uint32) CompareAndSwap(o, n uint32) bool {
+	vsched.Atomic(uintptr(unsafe.Pointer(&x.v)))
+	if x.v == o {
+		x.v = n
+		return true
+	}
+	return false
+}
+
+type Uint64 struct{ v uint64 }
+
+func (x *Uint64) Load() uint64        { return LoadUint64(&x.v) }
+func (x *Uint64) Store(v uint64)      { StoreUint64(&x.v, v) }
+func (x *Uint64) Add(d uint64) uint64 { return AddUint64(&x.v, d) }
+func (x *Uint64) Swap(n uint64) uint64 {
+	vsched.Atomic(uintptr(unsafe.Pointer(&x.v)))
+	o := x.v
+	x.v = n
+	return o
+}
+func (x *Uint64) CompareAndSwap(o, n uint64) bool {
+	vsched.Atomic(uintptr(unsafe.Pointer(&x.v)))
+	if x.v == o {
+		x.v = n
+		return true
+	}
+	return false
+}
+
+type Bool struct{ v uint32 }
+
+func (x *Bool) Load() bool { return LoadUint32(&x.v) != 0 }
+func (x *Bool) Store(b bool) {
+	var n uint32
+	if b {
+		n = 1
+	}
+	StoreUint32(&x.v, n)
+}
+func (x *Bool) Swap(b bool) bool {
+	vsched.Atomic(uintptr(unsafe.Pointer(&x.v)))
+	o := x.v != 0
+	x.v = 0
+	if b {
+		x.v = 1
+	}
+	return o
+}
+func (x *Bool) CompareAndSwap(o, n bool) bool {
+	vsched.Atomic(uintptr(unsafe.Pointer(&x.v)))
+	if (x.v != 0) == o {
+		x.v = 0
+		if n {
+			x.v = 1
+		}
+		return true
+	}
+	return false
+}
+
+type Value struct{ v any }
+
+func (x *Value) Load() any   { vsched.Atomic(uintptr(unsafe.Pointer(x))); return x.v }
+func (x *Value) Store(v any) { vsched.Atomic(uintptr(unsafe.Pointer(x))); x.v = v }
+
+type Pointer[T any] struct{ p *T }
+
+func (x *Pointer[T]) Load() *T   { vsched.Atomic(uintptr(unsafe.Pointer(x))); return x.p }
+func (x *Pointer[T]) Store(p *T) { vsched.Atomic(uintptr(unsafe.Pointer(x))); x.p = p }
+func (x *Pointer[T]) Swap(p *T) *T {
+	vsched.Atomic(uintptr(unsafe.Pointer(x)))
+	o := x.p
+	x.p = p
+	return o
+}
+func (x *Pointer[T]) CompareAndSwap(o, n *T) bool {
+	vsched.Atomic(uintptr(unsafe.Pointer(x)))
+	if x.p == o {
+		x.p = n
+		return true
+	}
+	return false
+}
+
+func CompareAndSwapUint64(p *uint64, o, n uint64) bool {
+	vsched.Atomic(uintptr(unsafe.Pointer(p)))
+	if *p == o {
+		*p = n
+		return true
+	}
+	return false
+}
+func CompareAndSwapInt32(p *int32, o, n int32) bool {
+	vsched.Atomic(uintptr(unsafe.Pointer(p)))
+	if *p == o {
+		*p = n
+		return true
+	}
+	return false
+}
+func CompareAndSwapUint32(p *uint32, o, n uint32) bool {
+	vsched.Atomic(uintptr(unsafe.Pointer(p)))
+	if *p == o {
+		*p = n
+		return true
+	}
+	return false
+}
+func SwapInt64(p *int64, n int64) int64 { vsched.Atomic(uintptr(unsafe.Pointer(p))); o := *p; *p = n; return o }
+func SwapUint64(p *uint64, n uint64) uint64 {
+	vsched.Atomic(uintptr(unsafe.Pointer(p)))
+	o := *p
+	*p = n
+	return o
+}
